@@ -183,7 +183,9 @@ func TestC04Clock(t *testing.T) {
 // ---- bucket level: several buckets in one process under a scripted global clock -------------------
 
 func TestC04Bucket(t *testing.T) {
-	pr := &Profile{MultiHandle: true, Purge: 1, Reopen: 2, Keys: []string{"a", "b"}}
+	// (*WithMeta is not "the regular write API": a caller-supplied CAS next to a frozen clock can
+	// coincide with the next value the clock hands out, which says nothing about the clock)
+	pr := &Profile{MultiHandle: true, Purge: 1, Reopen: 2, Keys: []string{"a", "b"}, Ops: scale(allDocOps, map[string]int{"SetWithMeta": 0, "DeleteWithMeta": 0})}
 	var restore func()
 	var globalMax uint64
 	var other *World
